@@ -232,30 +232,50 @@ def run_case(ctx, i, rng):
     ctx.sample(detail)
 
 
-def known_c01(case, missing, results=()):
-    """Missing instances explained by the C01 known findings only:
-    'parentless-after-parented-point', or (given the phase results) being
-    downstream of an output message that arrived after its task had left the
-    pool ('output-message-after-final-message')."""
+def explain_missing(case, missing, results=()):
+    """Root mechanism ('parentless-after-parented-point' or
+    'output-message-after-final-message') if every missing instance is
+    explained by the C01 known findings, else None.
+
+    Directly explained: an instance at a parentless point after a parented
+    point whose chain was never started, or one downstream of an output
+    message that arrived after its task had left the pool. Indirectly:
+    downstream of an explained instance, or at a later point than one (it
+    holds the runahead base)."""
     from vlib.e1.c01 import classify_missing
     from vlib.e1.c20 import child_of_late
     if not missing:
-        return True
+        return 'nothing-missing'
     late = []
     for r in results or ():
         late += ((r.get('monitors') or {}).get('ledger') or {}).get(
             'messages_after_task_left_pool') or []
-    explained, other = [], []
+    gt = case['gt']
+    roots = {}
     for tid in missing:
         p, n = tid.split('/', 1)
-        kind = classify_missing(case, n, int(p))
-        if kind == 'parentless-after-parented-point' or (
-                late and child_of_late(case['gt'], f'{tid}/01', late)):
-            explained.append(int(p))
-        else:
-            other.append(int(p))
-    if not other:
-        return True
-    # an instance stuck for a known reason holds the runahead base: later
-    # points cannot run either
-    return bool(explained) and min(other) > min(explained)
+        if classify_missing(case, n, int(p)) == \
+                'parentless-after-parented-point':
+            roots[tid] = 'parentless-after-parented-point'
+        elif late and child_of_late(gt, f'{tid}/01', late):
+            roots[tid] = 'output-message-after-final-message'
+    if not roots:
+        return None
+    rest = [t for t in missing if t not in roots]
+    seeds = [[t, None] for t in roots]
+    pmin = min(int(t.split('/')[0]) for t in roots)
+    for tid in rest:
+        if child_of_late(gt, f'{tid}/01', seeds):
+            continue
+        if int(tid.split('/')[0]) > pmin:
+            continue
+        return None
+    kinds = set(roots.values())
+    return ('output-message-after-final-message'
+            if 'output-message-after-final-message' in kinds
+            else 'parentless-after-parented-point')
+
+
+def known_c01(case, missing, results=()):
+    """Missing instances explained by the C01 known findings only."""
+    return explain_missing(case, missing, results) is not None
